@@ -351,11 +351,56 @@ def r5_unique_units(ctx):
               "parameters must be stripped and re-attached with the same p_units", node=g)
 
 
+def r6_verdict_arms(ctx):
+    """verdict values of the two acceptance tests, arms of dedimensionalisation, term accumulation of the hand-evaluated rate"""
+    def chk(rel, q, frag, key, msg):
+        fn = ctx.func(rel, q)
+        ctx.check(has(fn, frag), "%s:%s" % (rel, q), key, msg + " (expected `%s`)" % frag, node=fn)
+
+    q = "Reaction.check_consistent_units"
+    chk(CHEM, q, "except Exception: if throw: raise else: return False else: return True", "incompatible->raise/False;compatible->True",
+        "a constant that cannot be stripped against concentration^(1-order)/time is refused (raise or False), one that can is accepted")
+    chk(CHEM, q, "param = self.param.item()({'temperature': 1 * default_units.K}) * self.param.units", "expr-constant-evaluated-at-a-temperature",
+        "a unit-carrying rate expression is evaluated at a temperature (in kelvin) and re-attached to its own unit")
+    fn = ctx.func(CHEM, q)
+    top = [s_ for s_ in fn.body if isinstance(s_, ast.If)]
+    ok = len(top) == 1 and U(top[0].test) == "is_quantity(self.param)" and len(top[0].orelse) == 1 and isinstance(top[0].orelse[0], ast.Return) and U(top[0].orelse[0].value) == "True"
+    ctx.check(ok, CHEM + ":" + q, "plain-number-accepted", "a constant without units is accepted (units are optional)", node=fn)
+    q = "Equilibrium.check_consistent_units"
+    chk(CHEM, q, "if unit_param == unit_expected: return True elif throw: raise ValueError(", "equal-units->True;else-raise", "equal simplified units are accepted, others refused")
+    fn = ctx.func(CHEM, q)
+    top = [s_ for s_ in fn.body if isinstance(s_, ast.If)]
+    ok = len(top) == 1 and U(top[0].test) == "is_quantity(self.param)" and len(top[0].orelse) == 1 and isinstance(top[0].orelse[0], ast.Return) and U(top[0].orelse[0].value) == "True"
+    ctx.check(ok, CHEM + ":" + q, "plain-number-accepted", "a constant without units is accepted", node=fn)
+    q = "Reaction.__init__"
+    chk(CHEM, q, "if checks is None: checks = self.default_checks ^ (dont_check or set())", "default-checks-unless-given", "without an explicit list the default checks run, minus the ones switched off")
+    q = "Expr.dedimensionalisation"
+    chk(EXPR, q, "if self.args is None: unitless_args = None else:", "argless-stays-argless", "an expression without stored arguments has nothing to strip")
+    chk(EXPR, q, "if isinstance(arg, Expr): if unit is not None: raise ValueError()", "nested-has-no-unit", "a nested expression carries no unit of its own")
+    chk(EXPR, q, "else: _unit, _dedim = (unit, to_unitless(arg, unit))", "plain-arg-stripped-with-own-unit", "a plain argument is stripped with exactly the unit that is reported for it")
+    chk(EXPR, q, "new_units.append(_unit) unitless_args.append(_dedim)", "unit-and-value-in-step", "reported units and stripped values are appended together, one per argument")
+    chk(EXPR, q, "if self.argument_defaults is not None: instance.argument_defaults = tuple((unitless_in_registry(arg, unit_registry) for arg in self.argument_defaults))",
+        "defaults-stripped-too", "default arguments are stripped in the same registry")
+    chk(EXPR, q, "return new_units, instance", "returns(units,instance)", "result is (units, stripped instance)")
+    chk(ODE, "get_odesys", "if unit_registry is None: p_units = None else:", "units-only-with-registry", "unit handling is installed exactly when a registry is given")
+    chk(ODE, "get_odesys.post_processor", "if output_time_unit is not None: time = rescale(time, output_time_unit)", "time-rescaled-on-request", "output time is rescaled exactly when a unit is requested")
+    chk(ODE, "get_odesys.post_processor", "if output_conc_unit is not None: conc = rescale(conc, output_conc_unit)", "conc-rescaled-on-request", "output concentrations are rescaled exactly when a unit is requested")
+    q = "_validate"
+    chk(ODE, q, "to_unitless(result, u.molar / u.second)", "term-is-conc-per-time", "every term of a rate must be strippable as concentration/time")
+    chk(ODE, q, "if expr == 0: rate = 0 * u.molar / u.second", "zero-rate-has-units", "a vanishing rate is 0 concentration/time")
+    chk(ODE, q, "if rate is None: rate = result else: rate += result", "terms-summed", "the hand-evaluated rate is the sum of its terms")
+    chk(ODE, q, "rates[k] = rate", "rate-per-substance", "one rate per substance key")
+    chk(ODE, q, "values = [conditions[s.name] for s in args] result = backend.lambdify(args, term)(*map(_exact, values))", "symbols-bound-by-name",
+        "each symbol is bound to the condition of the same name, in the order the callback was built with")
+    chk(ODE, q, "if k not in odesys.param_names and k not in odesys.names and (k not in ignore): raise KeyError(", "unknown-condition-refused", "an unknown condition key is refused on request")
+
+
 RULES = [
     Rule("C10-R1", r1_declared_vs_computed, 17, "declared argument dimensions vs formulas for every rate-expression class (symbolic order)"),
     Rule("C10-R2", r2_acceptance_dimension, 10, "acceptance-test dimension and propagation"),
     Rule("C10-R3", r3_pre_post_pairing, 19, "pre/post unit pairing in get_odesys and the alternative builder"),
     Rule("C10-R4", r4_dedimensionalisation, 8, "dedimensionalisation pairing"),
+    Rule("C10-R6", r6_verdict_arms, 21, "verdict arms of the acceptance tests; dedimensionalisation arms; hand-evaluated rate accumulation"),
     Rule("C10-R5", r5_unique_units, 4, "unique-key parameter units are the full registry product"),
 ]
 
